@@ -8,7 +8,7 @@ ROOT = os.path.dirname(os.path.dirname(os.path.abspath(__file__)))
 # id -> (category, technique, level text, level note, design ref)
 CHECKS = {
  "C01": ("exploration", "stress workload + offline history checker over recorded write/delivery events; Go race detector",
-         "Real server/client pairs over UDP, TCP, HTTP tunnel, WebSocket tunnel, plain and TLS+SRTP stream self-describing packets while readers join, pause and leave (one of them set up for a single media only), a raw reader keeps requests (also handler-refused ones) in flight during PLAY and publishers (direct or tunnelled) get a PAUSE refused; an offline checker over the recorded event log decides identity, order, at-most-once, completeness on reliable transports and SSRC agreement. Held on the executions made, not for all schedules.",
+         "Real server/client pairs over UDP, TCP, HTTP tunnel, WebSocket tunnel, plain and TLS+SRTP stream self-describing packets while readers join, pause and leave (one of them set up for a single media only), a raw reader keeps requests (also handler-refused ones) in flight during PLAY publishers (direct or tunnelled) get a PAUSE refused, and a reader behind the HTTP tunnel writes numbered RTCP feedback while its keep-alives cross it on the same tunnel (numbering checked at the server session, the two client routines left unordered for the race detector); an offline checker over the recorded event log decides identity, order, at-most-once, completeness on reliable transports and SSRC agreement. Held on the executions made, not for all schedules.",
          "Schedules are sampled (Go scheduler under -race plus injected yields), not enumerated; UDP loss is injected by a tap. Trusted: the harness' event log and CRC'd payload ids.", "DESIGN.md section 3 C01"),
  "C02": ("exploration", "exhaustive request-sequence enumeration below a depth bound against a reference RTSP state machine (online monitor), timing cases with scaled timers; race detector",
          "Every request sequence up to the depth bound over the alphabet is sent to a real Server on a fresh connection and each response / ServerSession.State() is compared with an independent RFC 2326 A.2 state-machine model; every continuation of length 1..2 of ten deep states (with handler-refused requests), requests naming a closing session from several connections and longer samples follow; expiry / non-expiry is checked with scaled timeouts, also for tunnelled peers.",
